@@ -9,6 +9,7 @@ import (
 	"math/rand"
 	"os"
 	"runtime"
+	"strings"
 	"sync"
 	"sync/atomic"
 	"testing"
@@ -63,21 +64,28 @@ func TestChildStorm(t *testing.T) {
 		// a short-lease tenure in a process that already has far timers pending (and no other timer traffic)
 		L := []time.Duration{300 * time.Millisecond, 400 * time.Millisecond}[idx%2]
 		for attempt := 1; ; attempt++ {
-			o := locktap.TenureBesideFarTimers(L)
+			var o locktap.Outcome
+			mode := "tenure-beside-far-timers"
+			if idx >= 2 {
+				mode = "two-locks-one-slow-storage"
+				o = locktap.TwoLocksOneSlowStorage(L)
+			} else {
+				o = locktap.TenureBesideFarTimers(L)
+			}
 			res.Maxes["canary_worst_stall_us"] = max(res.Maxes["canary_worst_stall_us"], int64(o.Stall/time.Microsecond))
 			if o.Sig != "" && o.Stall > L/8 {
 				if attempt < 3 {
 					res.Counters["takeover_repeated_because_of_a_stall"]++
 					continue
 				}
-				res.Inconcl = append(res.Inconcl, fmt.Sprintf("tenure-beside-far-timers: %s (canary stall %v)", o.What, o.Stall))
+				res.Inconcl = append(res.Inconcl, fmt.Sprintf("%s: %s (canary stall %v)", mode, o.What, o.Stall))
 				break
 			}
 			res.Evals++
-			res.Counters["tenure_beside_far_timers_scenarios"]++
-			res.Classes = append(res.Classes, fmt.Sprint("tenure-beside-far-timers", L))
+			res.Counters[strings.ReplaceAll(mode, "-", "_")+"_scenarios"]++
+			res.Classes = append(res.Classes, fmt.Sprint(mode, L))
 			if o.Sig != "" {
-				res.Violation("lock/two-holders", "real clock: "+o.What, map[string]any{"mode": "tenure-beside-far-timers", "lease": L.String()})
+				res.Violation("lock/two-holders", "real clock: "+o.What, map[string]any{"mode": mode, "lease": L.String()})
 			}
 			break
 		}
@@ -514,7 +522,7 @@ func staleRenewal(L time.Duration, n int32) (sig, what string, stall time.Durati
 func TestCheck(t *testing.T) {
 	run := report.New(prop, "fault_enumeration")
 	defer run.Finish(t)
-	run.Rule("controlled: scenarios of 2-5 workers (distinct Lockers of 1-3 providers and goroutines sharing a Locker) running programs over {Lock, TryLock, LockWithCtx} inside a synctest bubble; every kvs.Storage call of the lock code is a gate, the scheduler picks one enabled action per step (release a gate normally / as 'request lost' / as 'reply lost' with up to 2 faults, cancel an attempt before or during the call, leave a critical section, expire an ownerless record) - random and PCT schedules plus exhaustive DFS of 27 two-worker configurations with <=1 fault; monitor: number of callers between acquisition return and Unlock call never exceeds 1. take-over: on the real clock with a 300/400 ms lease (hook) a caller waits 1.25-2 leases behind a holder, takes over and holds for 3 leases against a TryLock-spinning third Locker (canary-guarded); stale renewal: the answer of the previous holder's n-th renewal arrives after it unlocked and another caller acquired. unlock vs failed renewal: A's renewal is answered with an error (request lost) while A is unlocking, then B acquires and a third Locker spins. A's Unlock loses its Delete (reply or request), B acquires, A tries the same Locker again. tenures during which the holder's provider is shut down or single renewal requests (1st..7th, pairs, triples) are lost, against a spinning Locker. far timers (own processes): a short-lease tenure taken while a lock of another name with a 30 s lease and a foreign timer 20 s ahead are pending in the process. slow storage (own processes): the holder's storage answers every renewal slowly but inside half a lease (a caller whose context ends meanwhile gets the context's error), 4 leases against a spinning Locker. hand-off storm (own process): goroutines sharing one Locker hand the lock over 150 000 (3 000 000) times; a holder found without a pending lease timer right after a hand-off (hook), or the last one, keeps the lock for two leases against another provider's Locker. free-running (also repeated by a second pass built without the race detector): same monitor under real scheduling with the race detector on inmem and Redis(miniredis). distinct = distinct (configuration, action trace) pairs executed in the controlled part")
+	run.Rule("controlled: scenarios of 2-5 workers (distinct Lockers of 1-3 providers and goroutines sharing a Locker) running programs over {Lock, TryLock, LockWithCtx} inside a synctest bubble; every kvs.Storage call of the lock code is a gate, the scheduler picks one enabled action per step (release a gate normally / as 'request lost' / as 'reply lost' with up to 2 faults, cancel an attempt before or during the call, leave a critical section, expire an ownerless record) - random and PCT schedules plus exhaustive DFS of 27 two-worker configurations with <=1 fault; monitor: number of callers between acquisition return and Unlock call never exceeds 1. take-over: on the real clock with a 300/400 ms lease (hook) a caller waits 1.25-2 leases behind a holder, takes over and holds for 3 leases against a TryLock-spinning third Locker (canary-guarded); stale renewal: the answer of the previous holder's n-th renewal arrives after it unlocked and another caller acquired. unlock vs failed renewal: A's renewal is answered with an error (request lost) while A is unlocking, then B acquires and a third Locker spins. A's Unlock loses its Delete (reply or request), B acquires, A tries the same Locker again. tenures during which the holder's provider is shut down or single renewal requests (1st..7th, pairs, triples) are lost, against a spinning Locker. acquisition through LockWithCtx / TryLock with a context cancelled right after (context-honouring storage), 2.5 leases against a spinning Locker. two locks taken together in one process, the storage of one answering its renewal after 0.75 leases: the other must be kept (own processes). far timers (own processes): a short-lease tenure taken while a lock of another name with a 30 s lease and a foreign timer 20 s ahead are pending in the process. slow storage (own processes): the holder's storage answers every renewal slowly but inside half a lease (a caller whose context ends meanwhile gets the context's error), 4 leases against a spinning Locker. hand-off storm (own process): goroutines sharing one Locker hand the lock over 150 000 (3 000 000) times; a holder found without a pending lease timer right after a hand-off (hook), or the last one, keeps the lock for two leases against another provider's Locker. free-running (also repeated by a second pass built without the race detector): same monitor under real scheduling with the race detector on inmem and Redis(miniredis). distinct = distinct (configuration, action trace) pairs executed in the controlled part")
 	run.Assume("controlled part: frozen virtual time, so leases never expire under a live holder (the property's premise); storage operations are atomic steps there - their internal atomicity is what the free-running part and C02 look at")
 	run.Assume("an ownerless lock record (left by an injected lost reply / lost Delete) disappears only through the explicit 'expire' action, which models lease expiry")
 
@@ -542,7 +550,7 @@ func TestCheck(t *testing.T) {
 		swg.Add(1)
 		go func() { // tenures beside far timers, one process each
 			defer swg.Done()
-			for c := range shard.Run(run, "TestChildStorm", "mixed", 2, 30*time.Minute) {
+			for c := range shard.Run(run, "TestChildStorm", "mixed", 4, 30*time.Minute) {
 				run.DistinctStr(c)
 			}
 		}()
@@ -636,6 +644,36 @@ func TestCheck(t *testing.T) {
 					run.DistinctStr(fmt.Sprint("unlock-vs-failed-renewal", L, 1+i%2))
 					if o.Sig != "" {
 						run.Violation("lock/two-holders", "real clock: "+o.What, map[string]any{"mode": "unlock-vs-failed-renewal", "lease": L.String(), "renewal": 1 + i%2})
+					}
+					return
+				}
+			}(i)
+		}
+		// acquisition through a context that ends right after the acquisition (the holder's storage honours contexts)
+		for i := 0; i < 4; i++ {
+			twg.Add(1)
+			go func(i int) {
+				defer twg.Done()
+				L := []time.Duration{300 * time.Millisecond, 400 * time.Millisecond}[i/2]
+				for attempt := 1; ; attempt++ {
+					o := locktap.CancelledCtxTenure(L, i%2 == 1)
+					if o.Skipped != "" {
+						run.Add("cancelled_ctx_tenure_skipped", 1)
+						return
+					}
+					if o.Sig != "" && o.Stall > L/8 {
+						if attempt < 3 {
+							run.Add("takeover_repeated_because_of_a_stall", 1)
+							continue
+						}
+						run.Inconclusive(fmt.Sprintf("cancelled-ctx-tenure: %s (canary stall %v)", o.What, o.Stall))
+						return
+					}
+					run.Eval(1)
+					run.Add("cancelled_ctx_tenure_scenarios", 1)
+					run.DistinctStr(fmt.Sprint("cancelled-ctx-tenure", L, i%2 == 1))
+					if o.Sig != "" {
+						run.Violation("lock/two-holders", "real clock: "+o.What, map[string]any{"mode": "cancelled-ctx-tenure", "lease": L.String(), "trylock": i%2 == 1})
 					}
 					return
 				}
